@@ -178,6 +178,10 @@ func (e *Engine) shapedParam(st *State, p *ssa.Parameter, shape string) Value {
 func (e *Engine) verifyFunction(ct *Contract, prop string, tier string) *fnResult {
 	t0 := time.Now()
 	res := &fnResult{Fn: ct.Fn, ByKind: map[string]int{}}
+	if ct.Flags["trusted"] != "" {
+		res.Notes = append(res.Notes, "TRUSTED: contract assumed at call sites, body not verified")
+		return res
+	}
 	fn := e.findFunction(ct.Fn)
 	if fn == nil {
 		o := &Obligation{ID: ct.Short + ".resolves", Fn: ct.Fn, Kind: "resolve", Status: "undischarged",
@@ -645,7 +649,7 @@ func (e *Engine) bindResults(env *rEnv, fn *ssa.Function, ret Value) {
 	if ret == nil && n > 0 {
 		// abnormal exit: results are unconstrained
 		for i := 0; i < n; i++ {
-			vals = append(vals, VUnknown{sig.Results().At(i).Type(), "noresult"})
+			vals = append(vals, VUnknown{Typ: sig.Results().At(i).Type(), Note: "noresult"})
 		}
 	}
 	for i := 0; i < n && i < len(vals); i++ {
